@@ -116,6 +116,9 @@ class Interp:
                 env[p.arg] = self.ev(dflt, {})
             else:
                 raise self.fail(f'missing keyword argument {p.arg}')
+        if a.kwarg:
+            known = set(params) | {p.arg for p in a.kwonlyargs}
+            env[a.kwarg.arg] = {k: v for k, v in (kwargs or {}).items() if k not in known}
         try:
             self.run(fn.body, env)
         except _Return as r:
